@@ -227,6 +227,21 @@ def enum_cases():
     for v, ok in [([0, 0, 1, 1], True), ([0, 1, 2, 3], True), ([-1, 0, 1, -1], True), ([0, 0, 0], False), ([0, 0, 2, 2], False),
                   ([0, 1, 1, 0], False), ([0, -2, 1, 1], False), ([-1, -1, -1, -1], False), ([0.0, 0, 1, 1], False)]:
         out.append(("coarse-graining-map", v, ok, lambda v=v: cg(v)))
+    # a reaction naming a species the network does not declare, at every position of a list of three reactions, on either
+    # side, through the constructor and the dictionary reader; with declared twins
+    from strengths import Reaction, rdnetwork_from_dict
+    eqs_ok = ["A -> B", "B -> ", " -> A"]
+    for pos in range(3):
+        for bad, side in (("X -> B", "reactant"), ("A -> X", "product"), ("A + X -> B", "second reactant"), ("A -> A", None)):
+            eqs = list(eqs_ok)
+            eqs[pos] = bad
+            out.append(("reaction-species", [pos, bad], side is None,
+                        lambda eqs=eqs: RDNetwork(species=[Species("A"), Species("B")], reactions=[Reaction(e) for e in eqs])))
+            out.append(("reaction-species(dict)", [pos, bad], side is None,
+                        lambda eqs=eqs: rdnetwork_from_dict({"species": [{"label": "A"}, {"label": "B"}], "reactions": [{"eq": e} for e in eqs]})))
+            out.append(("reaction-species(system dict)", [pos, bad], side is None,
+                        lambda eqs=eqs: rdsystem_from_dict({"network": {"species": [{"label": "A"}, {"label": "B"}],
+                                                                        "reactions": [{"eq": e} for e in eqs]}, "space": {"w": 2}})))
     return out
 
 
@@ -272,6 +287,30 @@ def coarse_map_cases(rep, tier):
                                             and set(range(max(imap) + 1)) <= set(imap)) else "form"
             rep.violation("coarse-graining-map", "invalid:coarse-graining-map:%s" % ("rejected-valid" if c["valid"] else "accepted:" + kind),
                           {"shape": c["shape"], "env": c["env"], "map": imap, "calls": bad})
+    # 'a valid index map contains only integers': valid maps with one entry replaced by a fraction, a text or nothing, through
+    # every entry point that takes a map (the drivers included)
+    from strengths import RDScript, simulate_script
+    nonint = 0
+    for c in rng.sample(valid, 40 if tier == "quick" else 400):
+        system = c16.build_system(c, UnitsSystem(), 1.0)
+        base = [int(v) for v in c["map"]]
+        k = rng.randrange(len(base))
+        for bad_entry in (base[k] + 0.5, base[k] - 0.25 if base[k] >= 0 else -0.5, str(base[k]), None):
+            imap = list(base)
+            imap[k] = bad_entry
+            nonint += 1
+            rep.case(["coarse-map-non-integer", c["shape"], c["env"], [repr(v) for v in imap]])
+            calls = {"check_index_map_validity": lambda: check_index_map_validity(imap, system.space),
+                     "coarsegrain_grid": lambda: coarsegrain_grid(system.space, imap),
+                     "coarsegrain_system": lambda: coarsegrain_system(system, imap),
+                     "simulate(cgmap=)": lambda: simulate(system, [0, 0.01], engine=build.make_engine("euler", lib=lib), time_step=0.005, cgmap=imap),
+                     "simulate_script(cgmap=)": lambda: simulate_script(RDScript(system=system, t_sample=[0, 0.01], time_step=0.005),
+                                                                        build.make_engine("euler", lib=lib), cgmap=imap)}
+            accepted = [name for name, fn in calls.items() if not raises(fn)[0]]
+            if accepted:
+                rep.violation("coarse-graining-map", "invalid:coarse-graining-map:accepted:non-integer-entry",
+                              {"shape": c["shape"], "env": c["env"], "map": [repr(v) for v in imap], "calls": accepted})
+    stats["maps_with_a_non_integer_entry"] = nonint
     rep.extra["coarse_map_cases"] = stats
 
 
